@@ -547,10 +547,20 @@ pub fn gen_cols(g: &mut G<'_>, n: usize, bin: bool) -> Vec<ColSpec> {
     if n >= 2 && g.chance(1, 10) {
         let j = g.usize_in(1, n - 1);
         let i = g.usize_in(0, j - 1);
-        match g.below(3) {
+        match g.below(4) {
             0 => cols[j] = cols[i].clone(),
             1 => cols[j].name = cols[i].name.clone(),
-            _ => cols[j].table = cols[j].name.clone(),
+            2 => cols[j].table = cols[j].name.clone(),
+            _ => {
+                // ("a.b", "c") next to ("a", "b.c"): the same once joined, same type and flags
+                let sep = *g.pick(&[".", ".", "", "\u{0}", "`"]);
+                let (p, q, r) = (cols[i].table.clone(), cols[i].name.clone(), cols[j].name.clone());
+                cols[j] = cols[i].clone();
+                cols[i].table = format!("{}{}{}", p, sep, q);
+                cols[i].name = r.clone();
+                cols[j].table = p;
+                cols[j].name = format!("{}{}{}", q, sep, r);
+            }
         }
     }
     cols
